@@ -13,9 +13,7 @@ Definition check (l : list float) : bool :=
       match rest with
       | req :: sx :: sy :: rx :: ry :: obs :: _ =>
         let r := match f2z req with 0%Z => PAuto | 1%Z => PSrc | _ => PRef end in
-        match resolve r (q sx * q sy) (q rx * q ry) with
-        | PSrc => (f2z obs =? 1)%Z | PRef => (f2z obs =? 2)%Z | PAuto => false
-        end
+        resolve_ok r (q sx * q sy) (q rx * q ry) (match f2z obs with 1%Z => PSrc | 2%Z => PRef | _ => PAuto end)
       | _ => false
       end
     else CheckC15.check rest
